@@ -59,6 +59,9 @@ class ErrorWithLocation(Exception):
         """
         self.message = message
         self.location = [location] if location else []
+        # The element the error was raised for is added once more by
+        # the member loop of its parent.
+        self._raised_for = location if location else None
 
     def add_location(self, element):
         """
@@ -66,9 +69,17 @@ class ErrorWithLocation(Exception):
         :param BaseType element:
         :return:
         """
-        # Don't add name if it is blank (for SEQUENCE OF, SET OF etc)
-        if (not getattr(element, 'no_error_location', False) and
-                (not self.location or element != self.location[-1])):
+        if getattr(element, 'no_error_location', False):
+            return
+
+        raised_for = self._raised_for
+        self._raised_for = None
+
+        # Only skip the element the error was created with. Comparing
+        # with the last element in general would drop a level of every
+        # recursive type, as a recursive member is the same object at
+        # every depth.
+        if raised_for is None or element is not raised_for:
             self.location.append(element)
 
     @property
